@@ -599,6 +599,7 @@ static json gen_field() {
   c["seg2"] = s2;
   c["src_polar"] = rbool(50);
   c["noE"] = rbool(50);
+  c["same_seg_id"] = rbool(30);
   return c;
 }
 
@@ -628,7 +629,11 @@ static Result run_field(const json &c) {
   r.nontrivial = mixed && S1.size() * S2.size() >= 2;
 
   StaticSegment st1("s1", 0);
-  PolarSegment pl1("p1", 0), seg2("p2", 1);
+  // ids are labels, not identities: a displaced copy / periodic image of a segment carries the same segment id and the
+  // same site ids as the original and still interacts with it
+  bool same_id = c.value("same_seg_id", false);
+  if (same_id) r.cls("segments-with-equal-ids");
+  PolarSegment pl1("p1", 0), seg2("p2", same_id ? 0 : 1);
   for (size_t i = 0; i < S1.size(); ++i) {
     st1.push_back(make_site<StaticSite>(S1[i], Index(i), i % 2 ? "C" : "H"));
     pl1.push_back(make_site<PolarSite>(S1[i], Index(i), i % 2 ? "C" : "H"));
